@@ -41,3 +41,8 @@ fn inside_macros(x: u8) -> Array<felt252> {
     assert!(x ==  not_here, "message {}", x);
     items
 }
+
+fn method_from_unimported_traits(x: u32, y: u64) -> u64 {
+    let r = x.sqrt();
+    y.pow(r)
+}
